@@ -259,8 +259,8 @@ func runC07(c *Ctx) {
 		}
 		R.Check(okAll, "C07.R3", cf.typ+"."+cf.method+":always-replaces", c.at(upd), "every successful "+cf.method+" (re)defines the name - an existing definition is replaced, never kept", "the map update dominates every return that may be nil", "a successful return is reachable without the map update (e.g. guarded by an existence test)")
 		// the value stored is a fresh object
-		a, fresh := updVal.(*ssa.Alloc)
-		R.Check(fresh && a.Heap, "C07.R3", cf.typ+"."+cf.method+":fresh-definition", c.at(upd), "each definition is a new object (earlier portals keep the object they were bound to)", "the stored value is allocated in this call", "the stored value is not a fresh allocation")
+		fresh := c.freshAlloc(updVal, 3) // allocated here, or by a constructor of the scope that always allocates
+		R.Check(fresh, "C07.R3", cf.typ+"."+cf.method+":fresh-definition", c.at(upd), "each definition is a new object (earlier portals keep the object they were bound to)", "the stored value is allocated in this call", "the stored value is not a fresh allocation")
 	}
 	for _, cf := range []cacheFn{{"DefaultStatementCache", "Get", "statements"}, {"DefaultPortalCache", "Get", "portals"}, {"DefaultPortalCache", "Execute", "portals"}} {
 		fn := c.mustMethod("C07.R3", "wire", cf.typ, cf.method)
@@ -404,10 +404,37 @@ func runC07(c *Ctx) {
 	if hp := c.mustMethod("C07.R5", "wire", "Session", "handleParse"); hp != nil {
 		R.Analysed(fname(hp))
 		gs := getStrings(hp)
-		if len(gs) != 2 {
+		var name, query ssa.Value
+		if len(gs) == 2 {
+			name, query = resultOf(gs[0], 0), resultOf(gs[1], 0)
+		} else if len(gs) == 0 {
+			// the leading fields may be read by a helper that hands them back as results
+			for _, ci := range core.Calls(hp) {
+				h := core.StaticCallee(ci)
+				call, isCall := ci.(*ssa.Call)
+				if h == nil || !isCall || !c.P.InPkg(h, "wire") || h.Blocks == nil || len(getStrings(h)) != 2 {
+					continue
+				}
+				hgs := getStrings(h)
+				for _, r := range returns(h) {
+					if cls := c.Err().Classify(errOperand(r), r.Block()); !cls.MayBeNil() {
+						continue
+					}
+					for i, rv := range r.Results {
+						if rv == resultOf(hgs[0], 0) {
+							name = resultOf(call, i)
+						}
+						if rv == resultOf(hgs[1], 0) {
+							query = resultOf(call, i)
+						}
+					}
+				}
+				R.Analysed(fname(h))
+			}
+		}
+		if name == nil || query == nil {
 			R.Fail("C07.R5", "Parse:fields", c.atFn(hp), "Parse reads the statement name and the query", sprintf("%d GetString calls", len(gs)))
 		} else {
-			name, query := resultOf(gs[0], 0), resultOf(gs[1], 0)
 			var parsed *ssa.Call
 			for _, ci := range core.Calls(hp) {
 				if callbackName(ci) == "parse" {
@@ -418,13 +445,20 @@ func runC07(c *Ctx) {
 			for _, ci := range callsIn(hp, cacheInvoke("StatementCache", "Set")) {
 				a := ci.Common().Args
 				okStmt := false
+				// the statement handed to Set is taken from the parser's result: through a selecting helper of package
+				// wire that receives that result, or as an element of the returned list
 				if ex, ok := a[2].(*ssa.Extract); ok && ex.Index == 0 && parsed != nil {
-					if call, ok := ex.Tuple.(*ssa.Call); ok && core.FuncIs(core.StaticCallee(call), pkWire, "singleStatement") {
+					if call, ok := ex.Tuple.(*ssa.Call); ok && core.StaticCallee(call) != nil && c.P.InPkg(core.StaticCallee(call), "wire") {
 						for _, sa := range call.Call.Args {
 							if e2, ok := sa.(*ssa.Extract); ok && e2.Tuple == ssa.Value(parsed) {
 								okStmt = true
 							}
 						}
+					}
+				}
+				if root, pth := pathOf(a[2]); parsed != nil && pth == "[]" {
+					if e2, ok := root.(*ssa.Extract); ok && e2.Tuple == ssa.Value(parsed) && e2.Index == 0 {
+						okStmt = true
 					}
 				}
 				R.Check(a[1] == name && okStmt, "C07.R5", "Parse:name-and-statement", c.at(ci), "the statement just parsed is stored under the message's name", "Set(name = 1st string, singleStatement(parse(query)))", "Statements.Set does not receive the message's name and the statement parsed from its query")
